@@ -6,14 +6,19 @@
 use crate::util::{Out, Rng, catch};
 use incan_syntax::ast::*;
 
-struct ExprPos { label: String, start: usize, end: usize }
+struct ExprPos { label: String, start: usize, end: usize, path: String }
 struct BlockPos { label: String, first_stmt_start: usize, in_loop: bool, returns: String, func: String }
 
-struct Walk { exprs: Vec<ExprPos>, blocks: Vec<BlockPos>, ret: String, func: String }
+struct Walk { exprs: Vec<ExprPos>, blocks: Vec<BlockPos>, ret: String, func: String, path: Vec<String> }
 
 impl Walk {
     fn expr(&mut self, e: &Spanned<Expr>, label: &str) {
-        self.exprs.push(ExprPos { label: label.to_string(), start: e.span.start, end: e.span.end });
+        self.path.push(label.to_string());
+        self.exprs.push(ExprPos { label: label.to_string(), start: e.span.start, end: e.span.end, path: self.path.join(">") });
+        self.expr_children(e);
+        self.path.pop();
+    }
+    fn expr_children(&mut self, e: &Spanned<Expr>) {
         match &e.node {
             Expr::Ident(_) | Expr::Literal(_) | Expr::SelfExpr => {}
             Expr::Binary(l, op, r) => {
@@ -86,7 +91,9 @@ impl Walk {
         if let Some(first) = b.get(skip) {
             self.blocks.push(BlockPos { label: label.to_string(), first_stmt_start: first.span.start, in_loop, returns: self.ret.clone(), func: self.func.clone() });
         }
+        self.path.push(label.to_string());
         for s in b { self.stmt(s, in_loop); }
+        self.path.pop();
     }
     fn stmt(&mut self, s: &Spanned<Statement>, in_loop: bool) {
         match &s.node {
@@ -137,6 +144,16 @@ impl Walk {
             }
         }
     }
+}
+
+/// Every expression position of a program: (path of walker labels from the owning body down to the position,
+/// start, end). Used by other checks that sweep positions (C15's feature scanners).
+pub fn expr_positions(src: &str) -> Option<Vec<(String, usize, usize)>> {
+    let toks = incan_syntax::lexer::lex(src).ok()?;
+    let ast = incan_syntax::parser::parse(&toks).ok()?;
+    let mut w = Walk { exprs: vec![], blocks: vec![], ret: String::new(), func: String::new(), path: vec![] };
+    w.program(&ast);
+    Some(w.exprs.into_iter().map(|e| (e.path, e.start, e.end)).collect())
 }
 
 fn check(source: &str) -> Result<Result<(), Vec<(String, usize, usize)>>, String> {
@@ -216,7 +233,7 @@ pub fn run(out: &mut Out, tier: &str, seed: u64, _scratch: &str) {
         }
         let toks = incan_syntax::lexer::lex(&base).expect("lex");
         let ast = incan_syntax::parser::parse(&toks).expect("parse");
-        let mut w = Walk { exprs: vec![], blocks: vec![], ret: String::new(), func: String::new() };
+        let mut w = Walk { exprs: vec![], blocks: vec![], ret: String::new(), func: String::new(), path: vec![] };
         w.program(&ast);
         // (a) every expression position replaced by an unknown name
         let quick_cap = if own { 400 } else { 40 };
